@@ -48,6 +48,22 @@ EMPHASIS = {
           "was only passed as an argument, the iteration order of a dictionary, what a second identical call returns, what "
           "happens to the same data reached through a less-used public accessor. The change itself must still look like a "
           "plausible maintainer edit. "),
+    '8': ("Your opponent is a tester who generates thousands of inputs per property, compares against an independent "
+          "re-implementation, replays editing and call histories, and has already seen the obvious ideas. PREFER: (i) state "
+          "shared between TWO LIVE OBJECTS of the same class (module-level or class-level tables, default-argument objects, "
+          "aliasing of a sub-object handed from one object to another), so that using one object changes what the other "
+          "returns or writes; (ii) what a method leaves behind when it REFUSES or fails midway (a documented exception or a "
+          "False return after the object has already been partly modified), or when it is called with nothing to do (empty "
+          "selection, zero-length list); (iii) less-travelled but documented ARGUMENT FORMS: negative indices, numpy integer or "
+          "numpy string types where Python ones are usual, tuples vs lists, generators / dict views instead of lists, keyword "
+          "names, objects vs their names, a file name with a directory part or an upper-case name; (iv) numerically SINGULAR "
+          "or TIED situations inside the documented range: a denominator or leading coefficient that vanishes at one interior "
+          "value, two candidates exactly equidistant, a value exactly representable vs one ulp off, a sum of spacings that "
+          "differs from the total by round-off; (v) a defect that needs a CHAIN of at least three public calls in a particular "
+          "order, each harmless alone; (vi) legal-but-untidy INPUT FILES as other programs write them: short lines not padded "
+          "to the field width, trailing blanks, CRLF line ends, blank lines where the format allows them, optional trailing "
+          "sections, values in a different but legal Fortran rendering. The change itself must still look like a plausible "
+          "maintainer edit, and the failing input must be inside the quantified domain. "),
 }[rnd]
 props = [json.loads(l) for l in open('/verif/properties.jsonl')]
 for p in props:
